@@ -281,6 +281,22 @@ pub fn gen_cfg(r: &mut Rng, t: &Target) -> DumpCfg {
             }
         }
     }
+    // requested regions that share their start address with something recorded earlier: another requested region of a
+    // different length (a header and the page it introduces, in either order), or a thread's stack region (side stream)
+    {
+        let mut r3 = Rng::new(r.0 ^ 0x9e37_79b9_7f4a_7c15);
+        if !cfg.app_memory.is_empty() && r3.chance(1, 3) {
+            let (a, l) = cfg.app_memory[r3.below(cfg.app_memory.len() as u64) as usize];
+            let short = (a, *r3.pick(&[1u64, 16, 100]).min(&l.max(1)));
+            if short.1 != l {
+                if r3.chance(1, 2) { cfg.app_memory.insert(0, short); } else { cfg.app_memory.push(short); }
+            }
+        }
+        if r3.chance(1, 4) {
+            let rsp = t.read_u64(bt.regs_addr + 80);
+            cfg.app_memory.push((rsp & !0xfff, *r3.pick(&[128u64, 4096, 5000])));
+        }
+    }
     if r.chance(1, 4) {
         let idlen = *r.pick(&[0usize, 16, 20]);
         cfg.user_mappings.push((0x7000_0000_0000, 0x3000, 0, 0x15, "/user/supplied/lib.so".into(), r.bytes(idlen)));
